@@ -507,6 +507,16 @@ pub fn f64_scalars() -> Vec<f64> {
         f64::MIN_POSITIVE,
         f64::MIN_POSITIVE / 4.0,
         -f64::MIN_POSITIVE / 4.0,
+        // the upper binades of the subnormals (a finite reciprocal still exists) and their mirror near the maximum
+        f64::MIN_POSITIVE / 2.0,
+        -f64::MIN_POSITIVE / 2.0,
+        f64::MIN_POSITIVE * 0.75,
+        f64::MIN_POSITIVE - 5e-324,
+        2e-308,
+        1e-308,
+        f64::MAX / 2.0,
+        f64::MAX / 4.0,
+        -f64::MAX / 2.0,
         9007199254740992.0,
         -9007199254740992.0,
         9007199254740991.0,
